@@ -12,7 +12,7 @@ Proof. intros <-. apply INR_IZR_INZ. Qed.
 Lemma sin_ge_cubic a : 0 <= a <= 1 -> a - a * a * a / 6 <= sin a.
 Proof.
   intros [H0 H1].
-  assert (Hpi : 1 <= PI) by interval.
+  assert (Hpi : 1 <= PI) by (interval with (i_prec 40)).
   destruct (SIN a H0 ltac:(lra)) as [Hlb _].
   unfold sin_lb, sin_approx in Hlb. cbn [sum_f_R0] in Hlb. unfold sin_term in Hlb.
   rewrite (INR_fact_val (2 * 0 + 1) 1 eq_refl), (INR_fact_val (2 * 1 + 1) 6 eq_refl),
@@ -45,9 +45,9 @@ Lemma sinc_near_0 y : 0 < y <= 1 / 64 -> 9993 / 10000 <= sin (PI * y) / (PI * y)
 Proof.
   intros [H0 H1].
   assert (Ha : 0 < PI * y) by (apply Rmult_lt_0_compat; [apply PI_RGT_0|exact H0]).
-  assert (Hb : PI * y <= 1) by interval.
+  assert (Hb : PI * y <= 1) by (interval with (i_prec 40)).
   destruct (sinc_bounds (PI * y) (conj Ha Hb)) as [L U]. split; [|exact U].
-  eapply Rle_trans; [|exact L]. interval.
+  eapply Rle_trans; [|exact L]. interval with (i_prec 40).
 Qed.
 
 (* One depth: |K d x - 1| <= 1/100 on (0, 1).  Three regions.  Near x = 0 the left tap 0 is
